@@ -250,6 +250,14 @@ def check(ctx, prop, broken):
             broken.append(("analyzer-proof", info))
     b, n = run(ctx, prop, ctx.n(12, 300))
     broken.extend(b)
+    # the built-in tables after everything this check did with the library (analyses of many crystals, histories on one object)
+    mod = common.tables_modified()
+    ctx.coverage["built_in_tables_unchanged_by_use"] = not mod
+    if mod:
+        ctx.finding("tables-modified:%s:%s" % (mod[0][0], mod[0][1]), "the built-in table %s (entry %s%s) is no longer what it was when the library was imported: "
+                    "using the analyzer changed it" % (mod[0][0], mod[0][1], " and %d more" % (len(mod) - 1) if len(mod) > 1 else ""),
+                    {"kind": "failing-history", "history": "import matid; run the analyses of this check (any crystal of the named space group through get_conventional_system / "
+                     "get_wyckoff_sets_conventional); compare matid.data.symmetry_data.%s[%r] with a fresh import" % (mod[0][0], mod[0][1]), "modified": [list(m) for m in mod[:20]]})
     ctx.assumptions.append("analyzer caches: module-level / class-level state and caches inside spglib are not modelled; "
                            "only attributes assigned through `self.` in class SymmetryAnalyzer (translated from the AST on every run)")
     return n
